@@ -199,10 +199,10 @@ Proof.
   - now apply phase1_word_plain.
   - destruct (wf_longc t W d l H H1) as (r & -> & Hne & _). rewrite (long_simple_repr d _ H1).
     cbn [phase1_word inter]. rewrite split_eq1_no; [reflexivity|]. cbn. exact Hne.
-  - destruct (wf_longc t W d l H H1) as (r & -> & Hne & _). rewrite (long_simple_repr d _ H1).
+  - destruct (wf_longc t W d l H H1) as (r & -> & Hne & Hfd). rewrite (long_simple_repr d _ H1).
     cbn [append phase1_word inter].
     change (String "-" (String "-" (r +s+ String "=" v))) with ((String "-" (String "-" r)) +s+ "=" +s+ v).
-    rewrite split_eq1_val; [reflexivity|]. cbn. exact Hne.
+    rewrite split_eq1_val; [now rewrite Hfd, H0|]. cbn. exact Hne.
   - destruct (wf_longc t W d l H H1) as (r & -> & Hne & _). rewrite (long_simple_repr d _ H1).
     cbn [phase1_word inter]. rewrite split_eq1_no by (cbn; exact Hne).
     rewrite (phase1_word_plain t v H2). reflexivity.
